@@ -8,3 +8,14 @@ Definition dispatch_type (f : Z) (w : wire) : wire :=
       w_osexp (type_of (bind_vars g bs) (r_sexp t))
   | _, _ => w_err
   end%Z.
+
+From DD Require Import Model.Smtlib.
+Definition r_info (lk dtc : wire) : info :=
+  mk_info (map (fun p => match p with WL [n; WL [s]] => (r_str n, Some (r_sexp s)) | WL [n; _] => (r_str n, None) | _ => ([], None) end) (r_list lk))
+          (map (fun p => match p with WL [n; s] => (r_str n, r_sexp s) | _ => ([], L []) end) (r_list dtc)).
+Definition dispatch_smtlib (f : Z) (w : wire) : wire :=
+  match f, w with
+  | 51, WL [lk; dtc; idx; t] => w_osexp (get_sort (r_info lk dtc) (r_bool idx) (r_sexp t))
+  | 52, WL [lk; dtc; t] => WN (get_bv_width (r_info lk dtc) (r_sexp t))
+  | _, _ => w_err
+  end%Z.
